@@ -468,13 +468,35 @@ def rename_values(
 
         initializer_values_by_graph[graph] = tuple(value for value, _ in initializer_pairs)
 
+    original_initializers = {
+        graph: tuple(graph.initializers.values()) for graph in initializer_values_by_graph
+    }
     for graph, initializer_values in initializer_values_by_graph.items():
         for value in initializer_values:
             assert value.name is not None, "Initializer values must have names"
             graph.initializers.pop(value.name)
 
-    for value, name in ordered_pairs:
-        value.name = name
+    # A name can still be rejected at this point (e.g. by the tensor backing a value, which
+    # is renamed along with it). In that case restore the names assigned so far and put the
+    # initializers back as they were, so that the rename is applied completely or not at all.
+    renamed: list[tuple[_core.Value, str | None, str | None]] = []
+    try:
+        for value, name in ordered_pairs:
+            old_name = value.name
+            old_tensor_name = value.const_value.name if value.const_value is not None else None
+            value.name = name
+            renamed.append((value, old_name, old_tensor_name))
+    except BaseException:
+        for value, old_name, old_tensor_name in reversed(renamed):
+            value.name = old_name
+            if value.const_value is not None:
+                value.const_value.name = old_tensor_name
+        for graph, initializers in original_initializers.items():
+            for value in initializers:
+                graph.initializers.pop(value.name, None)
+            for value in initializers:
+                graph.initializers.add(value)
+        raise
 
     for graph, initializer_values in initializer_values_by_graph.items():
         for value in initializer_values:
